@@ -150,8 +150,8 @@ impl Property for C11 {
     }
     fn budget(&self, tier: Tier) -> (u32, u32) {
         match tier {
-            Tier::Quick => (2000, 8),
-            Tier::Thorough => (30000, 16),
+            Tier::Quick => (5000, 8),
+            Tier::Thorough => (200000, 16),
         }
     }
     fn required_counters(&self) -> Vec<&'static str> {
